@@ -116,6 +116,10 @@ def get_type_graph(t: type) -> graphlib.TopologicalSorter[TypeNode]:
     #   used in more than one place (which must keep its parameters).
     stack = collections.deque([(root, frozenset((root.type,)))])
     visited = {root.type}
+    # Nodes are identified by (type, unwrapped, var): a generic which would produce a node
+    #   we have already expanded elsewhere must be deferred as well, or the two would be
+    #   one node in the graph and could close a cycle with their surroundings.
+    expanded = {root}
     while stack:
         parent, path = stack.popleft()
         parent_unwrapped = inspection.unwrap(parent.type)
@@ -141,6 +145,8 @@ def get_type_graph(t: type) -> graphlib.TopologicalSorter[TypeNode]:
             is_generic = is_subscripted or inspection.isuniontype(unwrapped)
             seen = path if is_generic else visited
             is_visited = child in seen or unwrapped in seen
+            if is_generic and not is_visited:
+                is_visited = TypeNode(child, unwrapped, var=var) in expanded
             is_stdlib = inspection.isstdlibtype(unwrapped)
             can_be_cyclic = is_subscripted or is_stdlib is False
             # We detected a cyclic type,
@@ -171,6 +177,7 @@ def get_type_graph(t: type) -> graphlib.TopologicalSorter[TypeNode]:
             else:
                 node = TypeNode(type=child, unwrapped=unwrapped, var=var)
                 visited.add(node.type)
+                expanded.add(node)
                 stack.append((node, path | {node.type}))
             # Flag the type as a "predecessor" of the parent type.
             #   This lets us resolve child types first when we iterate over the graph.
